@@ -106,6 +106,300 @@ Proof.
   - reflexivity.
   - destruct s; reflexivity.
 Qed.
+
+(* ---------- a value that came from an f32 pattern is stored and read back unchanged ---------- *)
+Lemma bitlen_eq m k : 0 < k -> 2 ^ (k - 1) <= Z.abs m < 2 ^ k -> bitlen m = k.
+Proof.
+  intros Hk [H1 H2]. assert (Hp : 0 < 2 ^ (k - 1)) by (apply Z.pow_pos_nonneg; lia).
+  unfold bitlen. destruct (Z.eqb_spec m 0); [lia|].
+  rewrite (Z.log2_unique (Z.abs m) (k - 1)); [lia|lia|]. replace (Z.succ (k - 1)) with k by lia. lia.
+Qed.
+
+(* the (significand, exponent) pairs decode_bits 8 23 returns for finite non-zero patterns *)
+Definition canon32 (m e : Z) : Prop :=
+  (e = -149 /\ 0 < Z.abs m < 2 ^ 23) \/ (-149 <= e <= 104 /\ 2 ^ 23 <= Z.abs m < 2 ^ 24).
+
+Lemma canon32_bitlen m e : canon32 m e ->
+  m <> 0 /\ 0 < bitlen m <= 24 /\ (2 ^ 23 <= Z.abs m -> bitlen m = 24) /\ (Z.abs m < 2 ^ 23 -> bitlen m <= 23).
+Proof.
+  intros H. assert (Hm : m <> 0) by (destruct H as [[_ H]|[_ H]]; change (2 ^ 23) with 8388608 in H; lia).
+  destruct (bitlen_spec m Hm) as [Hn [Hlo Hhi]]. split; [exact Hm|].
+  assert (H23 : Z.abs m < 2 ^ 23 -> bitlen m <= 23).
+  { intros Hlt. destruct (Z.le_gt_cases (bitlen m) 23) as [|Hc]; [assumption|exfalso].
+    pose proof (Z.pow_le_mono_r 2 23 (bitlen m - 1) ltac:(lia) ltac:(lia)). lia. }
+  assert (H24 : 2 ^ 23 <= Z.abs m -> Z.abs m < 2 ^ 24 -> bitlen m = 24) by (intros; apply bitlen_eq; [lia|split; assumption]).
+  destruct H as [[_ H]|[_ H]].
+  - specialize (H23 ltac:(lia)). split; [lia|]. split; [intros; lia|intros; lia].
+  - specialize (H24 ltac:(lia) ltac:(lia)). split; [lia|]. split; [intros; assumption|intros; lia].
+Qed.
+
+Lemma round_canon32 m e : canon32 m e -> round_dy 24 (-149) 128 m e = FFin m e.
+Proof.
+  intros H. destruct (canon32_bitlen m e H) as (Hm & Hn & Hn24 & Hn23).
+  unfold round_dy. destruct (Z.eqb_spec m 0) as [|_]; [contradiction|].
+  assert (He : Z.max (e + bitlen m - 24) (-149) <= e /\ e + bitlen m <= 128).
+  { destruct H as [[-> H]|[He H]]; [specialize (Hn23 ltac:(lia))|specialize (Hn24 ltac:(lia))]; lia. }
+  destruct He as [He1 He2].
+  destruct (Z.leb_spec (Z.max (e + bitlen m - 24) (-149)) e) as [_|Hc]; [|lia]. cbv beta iota.
+  destruct (Z.ltb_spec 128 (e + bitlen m)) as [Hc|_]; [lia|].
+  destruct (Z.eqb_spec m 0); [contradiction|reflexivity].
+Qed.
+
+Lemma bits_canon32 m e : canon32 m e ->
+  Z.of_N (bits_of_f32 (FFin m e))
+  = (if m <? 0 then 2147483648 else 0)
+    + (if Z.abs m <? 8388608 then Z.abs m else (e + 150) * 8388608 + (Z.abs m - 8388608)).
+Proof.
+  intros H. destruct (canon32_bitlen m e H) as (Hm & Hn & Hn24 & Hn23).
+  unfold bits_of_f32, encode_bits. cbv zeta.
+  change (Z.shiftl 1 (8 - 1) - 1) with 127. change (Z.shiftl 1 8 - 1) with 255.
+  change (23 + 1) with 24. change (1 - 127 - 23) with (-149). change (127 + 1) with 128.
+  rewrite (round_canon32 m e H). destruct (Z.eqb_spec m 0) as [|_]; [contradiction|].
+  rewrite bitlen_abs. change (Z.shiftl 1 (8 + 23)) with 2147483648. change (2 ^ 23) with 8388608 in *. change (2 ^ 24) with 16777216 in *.
+  destruct H as [[-> H]|[He H]].
+  - specialize (Hn23 ltac:(lia)). destruct (Z.ltb_spec (-149 + bitlen m - 1) (-149 + 23)) as [_|Hc]; [|lia].
+    destruct (Z.ltb_spec (Z.abs m) 8388608) as [_|Hc]; [|lia].
+    change (-149 - -149) with 0. rewrite Z.shiftl_0_r. destruct (m <? 0); lia.
+  - specialize (Hn24 ltac:(lia)). rewrite Hn24. destruct (Z.ltb_spec (e + 24 - 1) (-149 + 23)) as [Hc|_]; [lia|].
+    destruct (Z.ltb_spec (Z.abs m) 8388608) as [Hc|_]; [lia|].
+    change (24 - 24) with 0. rewrite Z.shiftl_0_r. rewrite Z.shiftl_mul_pow2 by lia. change (2 ^ 23) with 8388608.
+    change (Z.shiftl 1 23) with 8388608. replace (e + 24 - 1 + 127) with (e + 150) by lia. destruct (m <? 0); lia.
+Qed.
+
+(* the fields of a 32-bit pattern *)
+Lemma f32_fields B : 0 <= B < 4294967296 ->
+  let frac := Z.land B (Z.shiftl 1 23 - 1) in
+  let ex := Z.land (Z.shiftr B 23) (Z.shiftl 1 8 - 1) in
+  let neg := Z.testbit B (8 + 23) in
+  0 <= frac < 8388608 /\ 0 <= ex < 256 /\ B = (if neg then 2147483648 else 0) + ex * 8388608 + frac.
+Proof.
+  intros HB. cbv zeta.
+  change (Z.shiftl 1 23 - 1) with (Z.ones 23). change (Z.shiftl 1 8 - 1) with (Z.ones 8).
+  rewrite !Z.land_ones by lia. rewrite Z.shiftr_div_pow2 by lia. change (8 + 23) with 31.
+  change (2 ^ 23) with 8388608. change (2 ^ 8) with 256.
+  destruct (Z.testbit B 31) eqn:T; [apply Z.testbit_true in T|apply Z.testbit_false in T]; try lia;
+    change (2 ^ 31) with 2147483648 in T; Z.div_mod_to_equations; lia.
+Qed.
+
+Theorem bits_of_decode_f32 b : (b < 4294967296)%N ->
+  match f32_of_bits b with
+  | FFin m e => (m = 0 /\ e = 0) \/ (canon32 m e /\ bits_of_f32 (FFin m e) = b)
+  | _ => True
+  end.
+Proof.
+  intros Hb. unfold f32_of_bits, decode_bits. cbv zeta.
+  destruct (f32_fields (Z.of_N b) ltac:(lia)) as (Hf & Hx & HB). cbv zeta in Hf, Hx, HB.
+  set (frac := Z.land (Z.of_N b) (Z.shiftl 1 23 - 1)) in *.
+  set (ex := Z.land (Z.shiftr (Z.of_N b) 23) (Z.shiftl 1 8 - 1)) in *.
+  set (neg := Z.testbit (Z.of_N b) (8 + 23)) in *.
+  change (Z.shiftl 1 8 - 1) with 255. change (Z.shiftl 1 (8 - 1) - 1) with 127. change (Z.shiftl 1 23) with 8388608.
+  destruct (Z.eqb_spec ex 255) as [|Hx255]; [destruct (frac =? 0); exact I|].
+  set (m := if ex =? 0 then frac else frac + 8388608).
+  set (e := (if ex =? 0 then 1 else ex) - 127 - 23).
+  destruct (Z.eqb_spec m 0) as [|Hm0]; [left; split; reflexivity|right].
+  assert (Hc : canon32 (if neg then - m else m) e).
+  { unfold canon32, m, e in *. change (2 ^ 23) with 8388608. change (2 ^ 24) with 16777216.
+    destruct (Z.eqb_spec ex 0); [left|right]; destruct neg; lia. }
+  split; [exact Hc|]. apply N2Z.inj. rewrite (bits_canon32 _ _ Hc).
+  rewrite HB at 1. unfold m, e in *. destruct (Z.eqb_spec ex 0) as [E0|E0].
+  - destruct neg.
+    + destruct (Z.ltb_spec (- frac) 0); [|lia]. destruct (Z.ltb_spec (Z.abs (- frac)) 8388608); lia.
+    + destruct (Z.ltb_spec frac 0); [lia|]. destruct (Z.ltb_spec (Z.abs frac) 8388608); lia.
+  - destruct neg.
+    + destruct (Z.ltb_spec (- (frac + 8388608)) 0); [|lia]. destruct (Z.ltb_spec (Z.abs (- (frac + 8388608))) 8388608); lia.
+    + destruct (Z.ltb_spec (frac + 8388608) 0); [lia|]. destruct (Z.ltb_spec (Z.abs (frac + 8388608)) 8388608); lia.
+Qed.
+
+(* a value denoted by an f32 pattern survives being stored as f32 and read back, and is not changed
+   by the narrowing `as f32` either (IEEE mode: it is representable; exact mode: no rounding) *)
+Theorem f32_store_load b : (b < 4294967296)%N ->
+  f32_of_bits (bits_of_f32 (f32_of_bits b)) = f32_of_bits b
+  /\ to_f32 ieee (f32_of_bits b) = f32_of_bits b /\ to_f32 exact (f32_of_bits b) = f32_of_bits b.
+Proof.
+  intros Hb. pose proof (bits_of_decode_f32 b Hb) as H. destruct (f32_of_bits b) as [m e| |s] eqn:E.
+  - destruct H as [[-> ->]|[Hc Hbits]].
+    + repeat split; reflexivity.
+    + split; [rewrite Hbits; exact E|]. split; [|reflexivity]. cbn [to_f32 ieee r32]. apply round_canon32. exact Hc.
+  - repeat split; reflexivity.
+  - destruct s; repeat split; reflexivity.
+Qed.
+
+(* ---------- storing any f32-shaped value and reading it back preserves what it denotes ---------- *)
+(* (the representation may change: decode_bits returns the normalised significand) *)
+Lemma f32_fields_inv sg x fr : sg = 0 \/ sg = 2147483648 -> 0 <= x < 256 -> 0 <= fr < 8388608 ->
+  Z.land (sg + x * 8388608 + fr) (Z.shiftl 1 23 - 1) = fr
+  /\ Z.land (Z.shiftr (sg + x * 8388608 + fr) 23) (Z.shiftl 1 8 - 1) = x
+  /\ Z.testbit (sg + x * 8388608 + fr) (8 + 23) = (sg =? 2147483648).
+Proof.
+  intros Hsg Hx Hfr.
+  change (Z.shiftl 1 23 - 1) with (Z.ones 23). change (Z.shiftl 1 8 - 1) with (Z.ones 8).
+  rewrite !Z.land_ones by lia. rewrite Z.shiftr_div_pow2 by lia. change (8 + 23) with 31.
+  change (2 ^ 23) with 8388608. change (2 ^ 8) with 256.
+  split; [Z.div_mod_to_equations; lia|]. split; [Z.div_mod_to_equations; lia|].
+  destruct Hsg as [-> | ->].
+  - change (0 =? 2147483648) with false. apply Z.testbit_false; [lia|]. change (2 ^ 31) with 2147483648.
+    Z.div_mod_to_equations; lia.
+  - change (2147483648 =? 2147483648) with true. apply Z.testbit_true; [lia|]. change (2 ^ 31) with 2147483648.
+    Z.div_mod_to_equations; lia.
+Qed.
+
+(* decoding sign + exponent field + fraction *)
+Lemma decode_fields sg x fr : sg = 0 \/ sg = 2147483648 -> 0 <= x < 255 -> 0 <= fr < 8388608 ->
+  (x = 0 -> fr <> 0) ->
+  f32_of_bits (Z.to_N (sg + x * 8388608 + fr))
+  = FFin ((if sg =? 2147483648 then -1 else 1) * (if x =? 0 then fr else fr + 8388608))
+         ((if x =? 0 then 1 else x) - 150).
+Proof.
+  intros Hsg Hx Hfr Hnz. unfold f32_of_bits, decode_bits. cbv zeta.
+  rewrite Z2N.id by (destruct Hsg as [-> | ->]; lia).
+  destruct (f32_fields_inv sg x fr Hsg ltac:(lia) Hfr) as (E1 & E2 & E3). rewrite E1, E2, E3.
+  change (Z.shiftl 1 8 - 1) with 255. change (Z.shiftl 1 (8 - 1) - 1) with 127. change (Z.shiftl 1 23) with 8388608.
+  destruct (Z.eqb_spec x 255) as [|_]; [lia|].
+  set (m := if x =? 0 then fr else fr + 8388608).
+  assert (Hm : m <> 0) by (unfold m; destruct (Z.eqb_spec x 0); [auto|lia]).
+  destruct (Z.eqb_spec m 0) as [|_]; [contradiction|].
+  f_equal; [destruct (sg =? 2147483648); lia|]. destruct (x =? 0); lia.
+Qed.
+
+Lemma pow2_split a b : 0 <= a -> 0 <= b -> 2 ^ (a + b) = 2 ^ a * 2 ^ b.
+Proof. intros. apply Z.pow_add_r; assumption. Qed.
+
+Lemma round_id m e : m <> 0 -> bitlen m <= 24 -> -149 <= e -> e + bitlen m <= 128 ->
+  round_dy 24 (-149) 128 m e = FFin m e.
+Proof.
+  intros Hm Hn24 He Hov. destruct (bitlen_spec m Hm) as [Hn _].
+  unfold round_dy. destruct (Z.eqb_spec m 0) as [|_]; [contradiction|].
+  destruct (Z.leb_spec (Z.max (e + bitlen m - 24) (-149)) e) as [_|Hc]; [|lia]. cbv beta iota.
+  destruct (Z.ltb_spec 128 (e + bitlen m)) as [Hc|_]; [lia|]. destruct (Z.eqb_spec m 0); [contradiction|reflexivity].
+Qed.
+
+(* a rounding that carried (significand 2^24) is renormalised by the encoder's own rounding *)
+Lemma round_carry e : -149 <= e -> e + 25 <= 128 ->
+  round_dy 24 (-149) 128 16777216 e = FFin 8388608 (e + 1)
+  /\ round_dy 24 (-149) 128 (-16777216) e = FFin (-8388608) (e + 1).
+Proof.
+  intros He Hov. unfold round_dy.
+  change (16777216 =? 0) with false. change (-16777216 =? 0) with false. cbv iota.
+  change (bitlen 16777216) with 25. change (bitlen (-16777216)) with 25.
+  replace (Z.max (e + 25 - 24) (-149)) with (e + 1) by lia.
+  destruct (Z.leb_spec (e + 1) e) as [Hc|_]; [lia|]. replace (e + 1 - e) with 1 by lia.
+  cbv zeta.
+  change (Z.abs 16777216) with 16777216. change (Z.abs (-16777216)) with 16777216.
+  change (Z.shiftr 16777216 1) with 8388608. change (Z.shiftl 8388608 1) with 16777216.
+  change (16777216 - 16777216) with 0. change (Z.shiftl 1 (1 - 1)) with 1.
+  change (1 <? 0) with false. change (0 =? 1) with false. cbv iota.
+  change (16777216 <? 0) with false. change (-16777216 <? 0) with true. cbv iota.
+  change (Z.opp 8388608) with (-8388608). change (bitlen 8388608) with 24. change (bitlen (-8388608)) with 24.
+  destruct (Z.ltb_spec 128 (e + 1 + 24)) as [Hc|_]; [lia|].
+  change (8388608 =? 0) with false. change (-8388608 =? 0) with false. cbv iota. split; reflexivity.
+Qed.
+
+(* the encoder's branch after its (re-)rounding, for a non-zero value with at most 24 significant
+   bits, exponent >= -149 and magnitude below 2^128: decoding gives back the same number *)
+Lemma store_load_core m e : m <> 0 -> bitlen m <= 24 -> -149 <= e -> e + bitlen m <= 128 ->
+  exists m' e', f32_of_bits (bits_of_f32 (FFin m e)) = FFin m' e' /\ -149 <= e'
+    /\ m' * 2 ^ (e' + 149) = m * 2 ^ (e + 149).
+Proof.
+  intros Hm Hn24 He Hov. destruct (bitlen_spec m Hm) as [Hn [Hlo Hhi]].
+  unfold bits_of_f32, encode_bits. cbv zeta.
+  change (Z.shiftl 1 (8 - 1) - 1) with 127. change (Z.shiftl 1 8 - 1) with 255.
+  change (23 + 1) with 24. change (1 - 127 - 23) with (-149). change (127 + 1) with 128.
+  assert (Hr : round_dy 24 (-149) 128 m e = FFin m e) by (apply round_id; assumption).
+  rewrite Hr. destruct (Z.eqb_spec m 0) as [|_]; [contradiction|]. rewrite bitlen_abs.
+  set (n := bitlen m) in *. set (a := Z.abs m) in *.
+  change (Z.shiftl 1 (8 + 23)) with 2147483648.
+  set (sg := if m <? 0 then 2147483648 else 0).
+  assert (Hsg : sg = 0 \/ sg = 2147483648) by (unfold sg; destruct (m <? 0); auto).
+  assert (Hsign : (if sg =? 2147483648 then -1 else 1) * a = m).
+  { unfold sg, a. destruct (Z.ltb_spec m 0); [change (2147483648 =? 2147483648) with true|change (0 =? 2147483648) with false]; cbv iota; lia. }
+  destruct (Z.ltb_spec (e + n - 1) (-149 + 23)) as [Hsub|Hnorm].
+  - (* subnormal: exponent field 0, fraction = a * 2^(e+149) *)
+    rewrite Z.shiftl_mul_pow2 by lia. replace (e - -149) with (e + 149) by lia.
+    assert (Hp : 0 < 2 ^ (e + 149)) by (apply Z.pow_pos_nonneg; lia).
+    assert (Hfr : 0 < a * 2 ^ (e + 149) < 8388608).
+    { split; [apply Z.mul_pos_pos; unfold a; lia|]. change 8388608 with (2 ^ 23).
+      apply Z.lt_le_trans with (2 ^ n * 2 ^ (e + 149)); [apply Z.mul_lt_mono_pos_r; assumption|].
+      rewrite <- Z.pow_add_r by lia. apply Z.pow_le_mono_r; lia. }
+    replace (sg + a * 2 ^ (e + 149)) with (sg + 0 * 8388608 + a * 2 ^ (e + 149)) by lia.
+    rewrite (decode_fields sg 0 (a * 2 ^ (e + 149)) Hsg ltac:(lia) ltac:(lia) ltac:(lia)). change (0 =? 0) with true. cbv iota.
+    eexists _, _. split; [reflexivity|]. split; [lia|]. change (1 - 150 + 149) with 0. rewrite Z.pow_0_r.
+    rewrite <- Hsign. ring.
+  - (* normal: exponent field e+n-1+127, fraction = a * 2^(24-n) - 2^23 *)
+    rewrite (Z.shiftl_mul_pow2 a (24 - n)) by lia. rewrite (Z.shiftl_mul_pow2 (e + n - 1 + 127) 23) by lia.
+    change (Z.shiftl 1 23) with 8388608. change (2 ^ 23) with 8388608.
+    assert (Hp : 0 < 2 ^ (24 - n)) by (apply Z.pow_pos_nonneg; lia).
+    assert (HM : 8388608 <= a * 2 ^ (24 - n) < 16777216).
+    { split.
+      - change 8388608 with (2 ^ 23). replace 23 with ((n - 1) + (24 - n)) at 1 by lia. rewrite pow2_split by lia.
+        apply Z.mul_le_mono_nonneg_r; lia.
+      - change 16777216 with (2 ^ 24). replace 24 with (n + (24 - n)) at 2 by lia. rewrite pow2_split by lia.
+        apply Z.mul_lt_mono_pos_r; assumption. }
+    set (M := a * 2 ^ (24 - n)) in *.
+    replace (sg + (e + n - 1 + 127) * 8388608 + (M - 8388608)) with (sg + (e + n + 126) * 8388608 + (M - 8388608)) by lia.
+    rewrite (decode_fields sg (e + n + 126) (M - 8388608) Hsg ltac:(lia) ltac:(lia) ltac:(lia)).
+    destruct (Z.eqb_spec (e + n + 126) 0) as [|_]; [lia|].
+    eexists _, _. split; [reflexivity|]. split; [lia|].
+    replace (M - 8388608 + 8388608) with M by lia. unfold M. rewrite <- Hsign.
+    replace (e + n + 126 - 150 + 149) with (e + n + 125) by lia.
+    replace (e + 149) with ((24 - n) + (e + n + 125)) by lia. rewrite (pow2_split (24 - n) (e + n + 125)) by lia. ring.
+Qed.
+
+Theorem f32_store_load_value m e : f32_shape (FFin m e) -> m <> 0 ->
+  exists m' e', f32_of_bits (bits_of_f32 (FFin m e)) = FFin m' e' /\ -149 <= e'
+    /\ m' * 2 ^ (e' + 149) = m * 2 ^ (e + 149).
+Proof.
+  intros [Hz|(He & Hov & Ha)] Hm; [contradiction|].
+  destruct (bitlen_spec m Hm) as [Hn [Hlo Hhi]].
+  destruct (Z.le_gt_cases (bitlen m) 24) as [Hc|Hc]; [apply store_load_core; assumption|].
+  (* the rounding carried: |m| = 2^24; the encoder's own rounding renormalises it to 2^23 * 2^(e+1) *)
+  assert (Ham : Z.abs m = 2 ^ 24).
+  { pose proof (Z.pow_le_mono_r 2 24 (bitlen m - 1) ltac:(lia) ltac:(lia)). lia. }
+  assert (Hcase : m = 16777216 \/ m = - 16777216) by (change (2 ^ 24) with 16777216 in Ham; lia).
+  assert (Hb25 : bitlen m = 25) by (destruct Hcase as [-> | ->]; reflexivity).
+  destruct (round_carry e He ltac:(lia)) as [R1 R2].
+  assert (Hbits : exists m2, (m2 = 8388608 \/ m2 = -8388608) /\ m = 2 * m2
+                             /\ bits_of_f32 (FFin m e) = bits_of_f32 (FFin m2 (e + 1))).
+  { destruct Hcase as [-> | ->]; [exists 8388608|exists (-8388608)]; (split; [auto|]); (split; [reflexivity|]);
+      unfold bits_of_f32, encode_bits; cbv zeta;
+      change (Z.shiftl 1 (8 - 1) - 1) with 127; change (23 + 1) with 24; change (1 - 127 - 23) with (-149);
+      change (127 + 1) with 128; [rewrite R1|rewrite R2];
+      (rewrite round_id; [reflexivity|lia|reflexivity|lia|]); [change (bitlen 8388608) with 24|change (bitlen (-8388608)) with 24]; lia. }
+  destruct Hbits as (m2 & Hm2 & Em & Eb). rewrite Eb.
+  destruct (store_load_core m2 (e + 1)) as (m' & e' & H1 & H2 & H3).
+  - destruct Hm2 as [-> | ->]; lia.
+  - destruct Hm2 as [-> | ->]; [change (bitlen 8388608) with 24|change (bitlen (-8388608)) with 24]; lia.
+  - lia.
+  - destruct Hm2 as [-> | ->]; [change (bitlen 8388608) with 24|change (bitlen (-8388608)) with 24]; lia.
+  - exists m', e'. split; [exact H1|]. split; [exact H2|]. rewrite H3, Em.
+    replace (e + 1 + 149) with (1 + (e + 149)) by lia. rewrite (pow2_split 1 (e + 149)) by lia. change (2 ^ 1) with 2. ring.
+Qed.
+
+Lemma round_dy_not_nan p emin emax m e : round_dy p emin emax m e <> FNaN.
+Proof.
+  unfold round_dy. destruct (m =? 0); [discriminate|].
+  match goal with |- (let '(m2, e2) := ?r in _) <> _ => destruct r as [m2 e2] end.
+  destruct (emax <? e2 + bitlen m2); [discriminate|]. destruct (m2 =? 0); discriminate.
+Qed.
+
+(* IEEE mode: what is read back for a finite statistic x denotes exactly the binary32 rounding of x
+   ([to_f32 ieee x], ties to even, gradual underflow); an overflow to infinity is read back as that
+   infinity.  Values are compared as integers after scaling by 2^149 (all exponents are >= -149). *)
+Theorem f32_read_value_ieee M E :
+  match to_f32 ieee (FFin M E) with
+  | FFin m e =>
+      exists m' e', f32_of_bits (bits_of_f32 (to_f32 ieee (FFin M E))) = FFin m' e'
+        /\ (m = 0 -> m' = 0) /\ (m <> 0 -> -149 <= e /\ -149 <= e' /\ m' * 2 ^ (e' + 149) = m * 2 ^ (e + 149))
+  | FInf s => f32_of_bits (bits_of_f32 (to_f32 ieee (FFin M E))) = FInf s
+  | FNaN => False
+  end.
+Proof.
+  cbn [to_f32 ieee r32]. pose proof (round_f32_shape M E) as Hs. pose proof (round_dy_not_nan 24 (-149) 128 M E) as Hn.
+  destruct (round_dy 24 (-149) 128 M E) as [m e| |s]; [|contradiction|destruct s; reflexivity].
+  destruct (Z.eq_dec m 0) as [->|Hm].
+  - exists 0, 0. split; [reflexivity|]. split; [reflexivity|]. intros H; contradiction.
+  - destruct (f32_store_load_value m e Hs Hm) as (m' & e' & H1 & H2 & H3). exists m', e'. split; [exact H1|].
+    split; [intros; contradiction|]. intros _. destruct Hs as [|(He & _)]; [contradiction|]. repeat split; assumption.
+Qed.
 End F32Bits.
 
 Local Open Scope N_scope.
@@ -192,3 +486,12 @@ Proof.
   rewrite IH. cbn [rbind]. now rewrite map_app.
 Qed.
 End Reader.
+
+(* ---------- minimum and maximum come back exactly ---------- *)
+(* a statistic whose value is an f32 value (a stored value's own value) is read back unchanged,
+   in IEEE arithmetic and in exact arithmetic *)
+Lemma stat_read_f32 fp b : fp = ieee \/ fp = exact -> b < U32 -> stat_read fp (f32_of_bits b) = f32_of_bits b.
+Proof.
+  intros Hfp Hb. destruct (f32_store_load b Hb) as (H1 & H2 & H3). unfold stat_read, f32_rt.
+  destruct Hfp as [-> | ->]; [rewrite H2|rewrite H3]; exact H1.
+Qed.
